@@ -569,8 +569,8 @@ class SNode:
 
 def spec_fold(events, cfg, strict_prefix=True):
     """Independent fold of an event list by the documented rules (no counters, no auxiliary stacks)."""
-    spaces = set(BeautifulSoup.ASCII_SPACES)
-    root = SNode("root", BeautifulSoup.ROOT_TAG_NAME)
+    spaces = set(" \n\t\x0c\r")     # the documented ASCII whitespace, independent of the implementation's constant
+    root = SNode("root", "[document]")
     stack = [root]
     pending = []
 
@@ -596,7 +596,7 @@ def spec_fold(events, cfg, strict_prefix=True):
             stack.append(n)
         elif ev[0] == "e":
             flush()
-            if ev[1] == BeautifulSoup.ROOT_TAG_NAME:
+            if ev[1] == "[document]":
                 continue
             for i in range(len(stack) - 1, 0, -1):
                 if stack[i].name == ev[1] and stack[i].prefix == ev[2]:
